@@ -8,7 +8,9 @@ package streams
 //   rangecl    caching.VerifContentLengthFromRange
 //   rangeresp  the composed response: real server.ConfigureServeMux handler + real disk cache +
 //              scripted origin; first request fills the entry, second one hits it
-//   kf.C15-*   fixed witness tables, run through the rangeresp machinery
+//   kf.C15-*   fixed witness tables, run through the rangeresp machinery; kf.C15-a and kf.C15-b are
+//              the tables of the repaired findings C15-a / C15-b (suffix arithmetic of requestRange) and
+//              run as regression streams (every case must pass)
 
 import (
 	"bytes"
@@ -412,6 +414,8 @@ type rngW struct {
 	rng     string
 }
 
+// kf.C15-a / kf.C15-b: the former findings (bytes=-k with k > length, bytes=-0), repaired in
+// requestRange.start/size and setRangedHeaders; regression cases: 206 with the whole resource, and 416.
 var rngWitness = map[string][]rngW{
 	"kf.C15-a": {{200, false, 4, "bytes=-99"}, {200, false, 4, "bytes=-5"}, {200, false, 12, "bytes=-13"}},
 	"kf.C15-b": {{200, false, 4, "bytes=-0"}, {200, false, 1, "bytes=-0"}},
